@@ -420,8 +420,8 @@ Definition has_cand (v : bytes) (i : cid) (r : cres) : bool :=
 Definition walk_at (args : list bytes) (i : N) : option (bytes * N) :=
   match build_full (build_fuel c0) c0 with
   | BOk b => match start_walk b args i with
-             | WAt _ cur _ ValueDone false => Some (c_name cur, 0)
-             | WAt _ cur _ (Opt _ k) false => Some (c_name cur, k)
+             | WAt _ cur _ ValueDone false _ => Some (c_name cur, 0)
+             | WAt _ cur _ (Opt _ k) false _ => Some (c_name cur, k)
              | _ => None end
   | _ => None end.
 Definition kind_of (o : outcome) : option ekind := match o with OErr e => Some (e_kind e) | _ => None end.
